@@ -14,7 +14,7 @@ EXTENDS JoseDefs, TLC, Json
 
 CONSTANTS Dev, Family
 DevNames == {"CritNotChecked", "StrictIgnoredOnConsume", "CheckMoreNotPassed", "RequiredCustomIgnored",
-             "B64CritNotRequired", "BoolIsInt", "TypesUncheckedInJson"}
+             "B64CritNotRequired", "BoolIsInt", "TypesUncheckedInJson", "StopAtFirstUsable"}
 ASSUME Dev \subseteq DevNames
 
 JT == {"absent", "str_ok", "str_bad", "int_pos", "int_zero", "int_neg", "float", "true", "false", "null",
@@ -61,8 +61,14 @@ Positions(m, ser, p) ==
   ELSE IF p = "zip" THEN {"protected"}
   ELSE {"protected", "unprotected", "recipient"}
 
-Case(m, op, ser, strict, custom, p, c, pos, crit) ==
-  [mode |-> m, op |-> op, ser |-> ser, strict |-> strict, custom |-> custom, p |-> p, c |-> c, pos |-> pos, crit |-> crit]
+\* General JSON JWE with two recipients (both usable with the caller's key): the focus parameter sits in the first or in
+\* the second per-recipient header, and the registry either demands every recipient (default) or is content with any
+RcpShapes(m, op, ser, pos) ==
+  IF m \in {"kw", "gcmkw", "pbes2"} /\ op = "consume" /\ ser = "general" /\ pos = "recipient"
+  THEN {"single", "first_all", "second_all", "first_any", "second_any"} ELSE {"single"}
+
+Case(m, op, ser, strict, custom, p, c, pos, crit, rcp) ==
+  [mode |-> m, op |-> op, ser |-> ser, strict |-> strict, custom |-> custom, p |-> p, c |-> c, pos |-> pos, crit |-> crit, rcp |-> rcp]
 
 \* ------------------------------------------------------------------ layer D
 Present(case, n) == (n = case.p /\ case.c # "absent") \/ (n # case.p /\ n \in BaseNames(case.mode, case.op))
@@ -88,7 +94,13 @@ B64NeedsCrit(case) ==
   /\ case.mode = "jws7797" /\ case.p = "b64" /\ case.c # "absent" /\ case.crit # "lists_focus"
 Unregistered(case) == case.strict /\ case.c # "absent" /\ ~Registered(case, case.p)
 
+\* the other recipient of a two-recipient token carries no focus parameter: a required caller-registered parameter is
+\* missing there, and a protected "crit" naming the focus parameter names something absent from that recipient's header
+OtherRecipientLacks(case) ==
+  case.rcp # "single" /\ (case.custom = "req" \/ (case.p # "crit" /\ case.crit = "lists_focus"))
+
 Violated(case) == RequiredMissing(case) \/ FocusIllTyped(case) \/ CritBad(case) \/ B64NeedsCrit(case) \/ Unregistered(case)
+                  \/ OtherRecipientLacks(case)
 
 \* conditions hold but the concrete value (or an RFC rule outside C15) may still make the operation fail
 Soft(case) ==
@@ -111,17 +123,30 @@ vars == <<case, pc, out>>
 FocusParams(m) == RegNames(m, "opt") \cup {"xyz", "b64", "epk", "p2c", "iv", "kid"}
 
 CasesOf(m) ==
-  UNION {UNION {{Case(m, op, ser, strict, custom, p, c, pos, crit) :
+  UNION {UNION {UNION {{Case(m, op, ser, strict, custom, p, c, pos, crit, rcp) :
                    strict \in (IF p \in {"xyz", "custom", "b64", "epk"} THEN BOOLEAN ELSE {TRUE}),
                    custom \in (IF p \in {"custom", "xyz"} THEN {"none", "opt", "req"} ELSE {"none"}),
-                   c \in JT, pos \in Positions(m, ser, p),
+                   c \in JT, rcp \in RcpShapes(m, op, ser, pos),
                    crit \in (IF p \in {"b64", "custom", "typ", "xyz"} THEN CritShapes ELSE {"absent"})} :
+                  pos \in Positions(m, ser, p)} :
                 op \in {"produce", "consume"}, ser \in SersOf(m)} : p \in FocusParams(m)}
 
-Init == /\ case \in CasesOf(Family) /\ pc = "crit" /\ out = "none"
+IsInitial == pc = (IF case.rcp \in {"second_all", "second_any"} THEN "other_rcp" ELSE "crit")
+Init == /\ case \in CasesOf(Family) /\ IsInitial /\ out = "none"
 Fail == pc' = "done" /\ out' = "fail" /\ UNCHANGED case
 Goto(l) == pc' = l /\ UNCHANGED <<case, out>>
 
+\* the recipient loop of _perform_decrypt reaches the focus recipient after another, usable one went through its own
+\* (good) gates and key unwrapping; finding a content key there never ends the loop
+OtherRecipient ==
+  /\ pc = "other_rcp"
+  /\ IF "StopAtFirstUsable" \in Dev /\ case.rcp = "second_any"
+     THEN pc' = "done" /\ out' = "ok" /\ UNCHANGED case
+     ELSE IF OtherRecipientLacks(case) THEN Fail ELSE Goto("crit")
+OtherRecipientAfter ==
+  /\ pc = "other_after"
+  /\ IF "StopAtFirstUsable" \in Dev /\ case.rcp = "first_any" THEN Goto("operate")
+     ELSE IF OtherRecipientLacks(case) THEN Fail ELSE Goto("operate")
 \* check_crit_header (runs first; iterating a non-list raises as well)
 CritFailsO ==
   \/ (case.p # "crit" /\ case.crit \in {"lists_missing", "int", "mixed", "nested", "str"})
@@ -156,17 +181,18 @@ CheckMore ==
      IN IF missing \/ illtyped THEN Fail ELSE Goto("strict")
 CheckStrict ==
   /\ pc = "strict"
-  /\ IF Unregistered(case) /\ ~("StrictIgnoredOnConsume" \in Dev /\ case.op = "consume") THEN Fail ELSE Goto("operate")
+  /\ IF Unregistered(case) /\ ~("StrictIgnoredOnConsume" \in Dev /\ case.op = "consume") THEN Fail
+     ELSE Goto(IF case.rcp \in {"first_all", "first_any"} THEN "other_after" ELSE "operate")
 \* the operation proper: succeeds when every value is a good representative; may fail otherwise
 Operate ==
   /\ pc = "operate"
   /\ \E o \in (IF Soft(case) THEN {"ok", "fail"} ELSE {"ok"}) : pc' = "done" /\ out' = o /\ UNCHANGED case
 
-Next == CheckCrit \/ CheckB64 \/ CheckRegistry \/ CheckMore \/ CheckStrict \/ Operate
+Next == OtherRecipient \/ OtherRecipientAfter \/ CheckCrit \/ CheckB64 \/ CheckRegistry \/ CheckMore \/ CheckStrict \/ Operate
 Spec == Init /\ [][Next]_vars
 
 Sound == pc = "done" => out \in Allowed(case)
 \* the gates are also complete: a header violating a condition never reaches the operation
 NoViolatedOperates == pc = "operate" => ~Violated(case)
-Export == pc = "crit" => PrintT("CASE " \o ToJson([c |-> case, allowed |-> Allowed(case)]))
+Export == IsInitial => PrintT("CASE " \o ToJson([c |-> case, allowed |-> Allowed(case)]))
 =============================================================================
